@@ -70,6 +70,11 @@ func init() {
 			c.R.InternalErr("coherence: %v %s", err, trunc(o, 1500))
 			return
 		}
+		for _, g := range c.S.Groups {
+			if strings.HasPrefix(g.CompileErr, "exported Go API") {
+				c.R.Violate("coherence:surface:missing", fmt.Sprintf("group=%s: %s", g.Group, trunc(g.CompileErr, 500)), map[string]any{"engine": "coherence", "group": g.Group})
+			}
+		}
 		f, _ := os.Open(verd)
 		sc := bufio.NewScanner(f)
 		sc.Buffer(make([]byte, 1<<20), 1<<26)
@@ -79,7 +84,7 @@ func init() {
 				Summary                bool
 				Kind, Name, Note       string
 				Entities, Files, Types int64
-				Checks                 int64
+				Checks, Surface        int64
 			}
 			json.Unmarshal(sc.Bytes(), &v)
 			if v.Summary {
@@ -89,8 +94,9 @@ func init() {
 				c.R.Cov["message_types_checked"] = v.Types
 				c.R.AddCount("evaluations", v.Checks)
 				c.R.AddCount("distinct_nontrivial", v.Entities+v.Types)
-				if v.Entities == 0 || v.Files == 0 {
-					c.R.InternalErr("coherence: nothing compared (entities=%d files=%d)", v.Entities, v.Files)
+				c.R.Cov["exported_go_identifiers_checked"] = v.Surface
+				if v.Entities == 0 || v.Files == 0 || v.Surface == 0 {
+					c.R.InternalErr("coherence: nothing compared (entities=%d files=%d identifiers=%d)", v.Entities, v.Files, v.Surface)
 				}
 				continue
 			}
